@@ -160,6 +160,7 @@ func (idx *index) get(hash uint32, matchKey matchKeyFunc) error {
 
 func (idx *index) findInsertionBucket(newSlot slot, matchKey matchKeyFunc) (*slotWriter, bool, error) {
 	sw := &slotWriter{}
+	var free *slotWriter // First empty slot in the chain.
 	it := idx.newBucketIterator(idx.bucketIndex(newSlot.hash))
 	for {
 		b, err := it.next()
@@ -174,9 +175,11 @@ func (idx *index) findInsertionBucket(newSlot slot, matchKey matchKeyFunc) (*slo
 		for i = 0; i < slotsPerBucket; i++ {
 			sl := b.slots[i]
 			if sl.offset == 0 {
-				// Found an empty slot.
-				sw.slotIdx = i
-				return sw, false, nil
+				// Found an empty slot, keep looking for the key in the rest of the chain.
+				if free == nil {
+					free = &slotWriter{bucket: &b, slotIdx: i}
+				}
+				break
 			}
 			if newSlot.hash != sl.hash {
 				continue
@@ -194,6 +197,9 @@ func (idx *index) findInsertionBucket(newSlot slot, matchKey matchKeyFunc) (*slo
 		}
 		if b.next == 0 {
 			// No more buckets in the chain.
+			if free != nil {
+				return free, false, nil
+			}
 			sw.slotIdx = i
 			return sw, false, nil
 		}
